@@ -23,9 +23,12 @@
    [input] is the source text (in_text slices it), [x] the extensions the pass
    looks at, [cfg] selects the behaviour before ([cfg0]) / after ([cfgF]) the repair
    c9128f1 of DESIGN.md section 7 rows 2 and 3 (empty step / empty text content are
-   no longer pushed nor counted: [skipped], [finish_block]). *)
+   no longer pushed nor counted: [skipped], [finish_block]) and before ([cfg0], [cfgT]) /
+   after ([cfgF]) the repair 200c896 (in text mode the source of a component is pushed
+   without its comments: [comp_src], [strip_comments]). *)
 From Coq Require Import ZArith.
 From CL Require Export Model.Events.
+From CL Require Model.CommentMask.
 Open Scope N_scope.
 
 (* ---- sites of panics ---- *)
@@ -246,10 +249,26 @@ Fixpoint last_segment (s acc : str) : str :=
 
 (* the extensions the pass consults *)
 Record aext := { x_modes : bool; x_inline : bool; x_advanced : bool }.
-(* behaviour switches: false = the code before the repair *)
-Record acfg := { skip_empty_text : bool; skip_empty_step : bool }.
-Definition cfg0 : acfg := {| skip_empty_text := false; skip_empty_step := false |}.
-Definition cfgF : acfg := {| skip_empty_text := true; skip_empty_step := true |}.
+(* behaviour switches: [skip_*] false = the code before the repair c9128f1; [text_raw] true = the
+   code before the repair 200c896 (in_text pushed the raw source of a component, comments
+   included).  [cfgF] is the code as it is now, [cfgT] the code between the two repairs. *)
+Record acfg := { skip_empty_text : bool; skip_empty_step : bool; text_raw : bool }.
+Definition cfg0 : acfg := {| skip_empty_text := false; skip_empty_step := false; text_raw := true |}.
+Definition cfgT : acfg := {| skip_empty_text := true; skip_empty_step := true; text_raw := true |}.
+Definition cfgF : acfg := {| skip_empty_text := true; skip_empty_step := true; text_raw := false |}.
+
+(* in_text after 200c896 (event_consumer.rs 580-595): `lexer::Cursor` over the component's source,
+   every token's text pushed except LineComment / BlockComment tokens.  Which characters lie in
+   comment tokens does not depend on the Unicode classification: it is the comment mask of
+   Model/CommentMask.v (Proofs/MaskProofs.v [mask_is_lexer]: [mask s = token_mask ts] for the tokens
+   [ts] of [s] under every classification in which the special characters break words; restated for
+   this function as [strip_comments_is_lexer] in Proofs/EditAnalysis.v). *)
+Fixpoint keep_unmasked (s : str) (m : list bool) : str :=
+  match s, m with
+  | c :: r, b :: mr => if b then keep_unmasked r mr else c :: keep_unmasked r mr
+  | _, _ => []
+  end.
+Definition strip_comments (s : str) : str := keep_unmasked s (CommentMask.mask s).
 
 Section Collector.
 Variable ci_key : str -> str.
@@ -482,12 +501,14 @@ Definition in_step (s : astate) (e : event) (items : list item) : outcome astate
   | _ => Panic 547
   end.
 
-(* ---- in_text (551-574) ---- *)
+(* ---- in_text (562-600) ---- *)
+Definition comp_src (sl : str) : str := if text_raw cfg then sl else strip_comments sl.
+
 Definition in_text (s : astate) (e : event) (tx : str) : outcome astate :=
   let comp (sp : span) :=
     if negb (dm_eqb (a_define s) DMText) then Panic site_nontext_in_text else
     match byte_slice input sp with
-    | Some sl => Done (set_block s (Some (BText (tx ++ sl))))
+    | Some sl => Done (set_block s (Some (BText (tx ++ comp_src sl))))
     | None => Panic site_in_text_slice
     end in
   match e with
